@@ -66,7 +66,7 @@ PROPERTIES: dict[str, dict] = {
             "rule": _SITE_RULE},
     "C19": {
         "title": "Saved results read back faithfully and are never overwritten",
-        "rules": [save.rule_c19_saver, save.rule_c19_output_roundtrip, save.rule_c19_commands],
+        "rules": [save.rule_c19_saver, save.rule_c19_output_roundtrip, save.rule_c19_commands, save.rule_c19_readers],
         "explanation": _NOTE + " C19: W1 skip-if-present dominates writes; W2 serialised mapping = loaded mapping + new key; "
                        "W3 Output.json/from_json key and column agreement; W4 commands store position 0/1 of what they computed; "
                        "W5 written content is installed; REG-V saver registry and dispatcher.",
